@@ -12,6 +12,10 @@ ASSUMPTIONS = [
 ]
 
 
+def SRC(e):
+    return e.get("source_override") or ADL.to_python(e)
+
+
 def keep_vars(ent):
     return [o["n"] for o in ent["objs"] if o["q"] == "variable"]
 
@@ -63,12 +67,12 @@ def run(prop, tier, ents, maxdepth_of, scratch, timeout, level="model_checking",
             unread.append((e, ob))
     for e, ob in rejected:
         key = f"core-design-rejected:{e['family']}|{ob['error']['cls']}: {ob['error']['msg'][:160]}"
-        V.violation(key, {"clause": "CoreAccepted", "adl": e, "source_py": ADL.to_python(e), "error": ob["error"],
+        V.violation(key, {"clause": "CoreAccepted", "adl": e, "source_py": SRC(e), "error": ob["error"],
                           "tb": ob.get("tb", "")})
     for e, ob in unread:
         if ob["reader"] == "syntax_error":
             V.violation(f"emitted-vhdl-syntax-error:{e['family']}|{ob['reader_msg']}",
-                        {"clause": "Parses", "adl": e, "source_py": ADL.to_python(e), "vhdl": ob["vhdl"], "msg": ob["reader_msg"]})
+                        {"clause": "Parses", "adl": e, "source_py": SRC(e), "vhdl": ob["vhdl"], "msg": ob["reader_msg"]})
         else:
             V.machinery_error(f"unsupported construct in {e['name']}: {ob['reader_msg']}")
     # cost-balanced shards: sort by input-space size so every shard gets a mix
@@ -101,7 +105,7 @@ def run(prop, tier, ents, maxdepth_of, scratch, timeout, level="model_checking",
     for did, err in viols:
         e = by_name[did]
         key = f"{err.split(':')[0]}:{e['family']}|{err}|{did}"
-        payload = {"clause": err, "adl": e, "source_py": ADL.to_python(e), "vhdl": obs[did]["vhdl"]}
+        payload = {"clause": err, "adl": e, "source_py": SRC(e), "vhdl": obs[did]["vhdl"]}
         if did in traces:
             payload["trace"] = traces[did]
             payload["how_to"] = f"./check {prop} --replay <this file>"
